@@ -106,9 +106,15 @@ def run_impl_many(prop: Prop, cases: list) -> list:
     if prop.workers <= 1 or len(cases) < 4:
         return [_run_one(prop, c) for c in cases]
     _POOL_PROP = prop
+    import concurrent.futures as cf
+    from concurrent.futures.process import BrokenProcessPool
     ctx = multiprocessing.get_context("fork")
-    with ctx.Pool(min(prop.workers, os.cpu_count() or 1)) as pool:
-        return pool.map(_pool_run, cases, chunksize=max(1, len(cases) // (prop.workers * 4)))
+    try:
+        with cf.ProcessPoolExecutor(min(prop.workers, os.cpu_count() or 1), mp_context=ctx) as ex:
+            return list(ex.map(_pool_run, cases, chunksize=max(1, len(cases) // (prop.workers * 4))))
+    except BrokenProcessPool as e:
+        # a worker process died (killed, or the tree under test vanished): infrastructure, not a verdict
+        return [{"__infra__": f"worker pool broke: {e}"}]
 
 
 def case_hash(case) -> str:
